@@ -202,7 +202,7 @@ counted_array!(pub static ARGS: [ArgInfo<gcc::ArgData>; _] = [
     take_arg!("--hip-device-lib-path", PathBuf, Concatenated('='), PassThroughPath),
     take_arg!("--hip-path", PathBuf, Concatenated('='), PassThroughPath),
     take_arg!("--rocm-path", PathBuf, Concatenated('='), PassThroughPath),
-    take_arg!("--serialize-diagnostics", OsString, Separated, PassThrough),
+    take_arg!("--serialize-diagnostics", PathBuf, Separated, SerializeDiagnostics),
     take_arg!("--target", OsString, Separated, PassThrough),
     // Note: for clang we must override the dep options from gcc.rs with `CanBeSeparated`.
     take_arg!("-MF", PathBuf, CanBeSeparated, DepArgumentPath),
